@@ -438,6 +438,9 @@ class SamplerCore:
         """Get distribution function (map or pool.map)."""
         if self.config.pool is None:
             return map
+        elif isinstance(self.config.pool, int) and self.config.pool <= 1:
+            # A single process: evaluate serially
+            return map
         elif isinstance(self.config.pool, int) and self.config.pool > 1:
             from multiprocess import Pool
 
